@@ -19,11 +19,18 @@ def path_modes(ctx, job, box):
     op = job.params['op']
     n = job.params['n']
     via = job.params.get('via', 'api')
-    run = GridRun(ctx, box, cols, lines, cursor='pick', tabstops=1, titles='none', savepoints=0)
+    if job.params.get('wide'):
+        run = GridRun(ctx, box, cols, lines, cursor=(3, 0), tabstops=1, titles='none', savepoints=0, buffer='none')
+    else:
+        run = GridRun(ctx, box, cols, lines, cursor='pick', tabstops=1, titles='none', savepoints=0)
     L = run.L
     ss = run.ss
-    ms = [sym_u32(ctx, 'm%d' % i) for i in range(n)]
-    private = ctx.boolvar('private')
+    if job.params.get('fixed'):
+        ms = [Int('u32', v) for v in job.params['fixed'][0]]
+        private = job.params['fixed'][1]
+    else:
+        ms = [sym_u32(ctx, 'm%d' % i) for i in range(n)]
+        private = ctx.boolvar('private')
     if via == 'api':
         run.call(op, slice_u32(ms), private)
     else:
@@ -39,7 +46,7 @@ def path_modes(ctx, job, box):
     pre, post = run.pre, run.post
     set_ = op == 'set_mode'
     # shifted numbers
-    sh = [z3.If(private, bv(m) << 5, bv(m)) for m in ms]
+    sh = [z3.If(to_z3bool(private), bv(m) << 5, bv(m)) for m in ms]
 
     def has(num):
         c = z3.Or([s == num for s in sh])
@@ -58,7 +65,14 @@ def path_modes(ctx, job, box):
     # ---- geometry
     pc = ctx.concretize(bv(scr(L, post, 'columns')))
     pl = ctx.concretize(bv(scr(L, post, 'lines')))
+    restored = False
     exp_cols = 132 if (colm and set_) else cols
+    if colm and not set_ and cols == 132:
+        sc0 = scr(L, pre, 'saved_columns')
+        had = ctx.branch(int_eq(Int('isize', sc0.disc), 1))
+        if had:
+            exp_cols = ctx.concretize(bv(sc0.pay[1][0]))
+            restored = True
     checks.append(run.check(pc == exp_cols and pl == lines, '%s: geometry after the call is %dx%d, expected %dx%d'
                             % (op, pc, pl, exp_cols, lines)))
     if pc != exp_cols or pl != lines:
@@ -68,12 +82,15 @@ def path_modes(ctx, job, box):
         sc = scr(L, post, 'saved_columns')
         okc = bool_and(int_eq(Int('isize', sc.disc), 1), int_eq(sc.pay[1][0], cols) if 1 in sc.pay else False)
         checks.append(run.check(okc, 'SM DECCOLM did not remember the previous width'))
+    elif restored:
+        checks.append(run.check(int_eq(Int('isize', scr(L, post, 'saved_columns').disc), 0),
+                                'RM DECCOLM restored the width but kept the remembered width'))
     else:
         checks.append(run.check(same(scr(L, pre, 'saved_columns'), scr(L, post, 'saved_columns')),
                                 '%s changed the remembered width' % op))
     # ---- margins
     mg = scr(L, post, 'margins')
-    if colm and set_:
+    if (colm and set_ and cols != 132) or (restored and exp_cols != cols):
         checks.append(run.check(int_eq(Int('isize', mg.disc), 0), 'SM DECCOLM did not reset the scrolling region'))
         m_some, m_top = False, None
     else:
@@ -169,6 +186,11 @@ def jobs(tier):
             js.append(Job('%s/3/1x1' % op, path_modes, op=op, n=3, geom=(1, 1), prop=PROP))
     for g in [(2, 1)] if tier == 'quick' else [(2, 1), (2, 2)]:
         js.append(Job('roundtrip/%dx%d' % g, path_roundtrip, geom=g, prop=PROP))
+    # a screen that is already 132 columns wide (reached by resize, Screen::new or SM ?3 + RIS):
+    # RM restores a remembered width, SM keeps the width
+    for op in ('set_mode', 'reset_mode'):
+        js.append(Job('%s/?3/132x1' % op, path_modes, op=op, n=1, geom=(132, 1), wide=True, fixed=([3], True), prop=PROP))
+        js.append(Job('%s/96/132x1' % op, path_modes, op=op, n=1, geom=(132, 1), wide=True, fixed=([96], False), prop=PROP))
     return js
 
 
@@ -180,5 +202,5 @@ META = {
     'bounds': 'mode lists of 1..2 (thorough 3) symbolic numbers 0..=9999 with a symbolic private flag, from symbolic '
               'states on {2x1,2x2} (thorough + {1x1,3x2}); the 132-column switch is executed for real; the DECCOLM '
               'round trip SM ?3 / RM ?3 from every state',
-    'outside': 'starting widths of exactly 132 columns (DECCOLM set twice in a row); longer mode lists',
+    'outside': 'longer mode lists; grids wider than 3 columns other than the 132-column cases',
 }
